@@ -600,7 +600,12 @@ func checkDepthDev(h *hz.H, md protoreflect.MessageDescriptor, nums []int32, lev
 	refErr := proto.Unmarshal(in, d)
 	g := enum.NewGo(md)
 	var err error
-	if p := hz.Catch(func() { err = proto.Unmarshal(in, g) }); p != nil {
+	// decoding time must stay proportional to the input: a decoder that visits a payload more than once per level runs
+	// for 2^levels steps and never returns
+	done := h.Watch(fmt.Sprintf("C06/depth-does-not-terminate/%s/path=%v", md.FullName(), shapePath(path)), fmt.Sprintf("Unmarshal of %d bytes (%d nested message levels along fields %v of %s)", len(in), levels, nums, md.FullName()), c)
+	p := hz.Catch(func() { err = proto.Unmarshal(in, g) })
+	done()
+	if p != nil {
 		h.ViolateMin(fmt.Sprintf("C06/depth-panic/%s", md.FullName()), fmt.Sprintf("%d nested levels along %v of %s: Unmarshal panicked: %v", levels, nums, md.FullName(), p), c, levels)
 		return
 	}
